@@ -27,11 +27,17 @@ func leaves(thorough bool) []*Node {
 		// slices / arrays of NAMED byte-like and string-like element types (kind checks vs convertibility differ here)
 		NSlice(Sc(KUint8, true), NUint(KUint8, true, 'a')), NArray(Sc(KUint8, false), NUint(KUint8, false, 'a')), NSlice(Sc(KString, true), NStr(true, "a")),
 	}
+	// a named type of every scalar kind (kind-based code paths must treat them like the predeclared ones)
+	l = append(l,
+		NInt(KInt8, true, 1), NInt(KInt16, true, 1), NInt(KInt32, true, 1), NInt(KInt64, true, 1),
+		NUint(KUint, true, 1), NUint(KUint8, true, 1), NUint(KUint16, true, 1), NUint(KUint32, true, 1), NUint(KUint64, true, 1),
+		NFloat(KFloat32, true, 1.5), NBool(true, false), NStr(true, "1"),
+		// size boundaries: collections long enough to cross the usual growth steps of append (8, 16, 32)
+		bigList(9, 8), bigList(17, 0), bigList(33, 32), bigMap(9),
+	)
 	if thorough {
 		l = append(l,
-			NInt(KInt8, true, 1), NInt(KInt16, true, 1), NInt(KInt32, true, 1), NInt(KInt64, true, 1),
-			NUint(KUint, true, 1), NUint(KUint8, true, 1), NUint(KUint16, true, 1), NUint(KUint32, true, 1), NUint(KUint64, true, 1),
-			NFloat(KFloat32, true, 1.5), NBool(true, false), NStr(true, ""), NStr(true, "1"),
+			NStr(true, ""),
 			NInt(KInt64, false, 1000), NUint(KUint8, false, 0), NFloat(KFloat32, false, 1), NFloat(KFloat64, false, -1),
 			str("abc"), str("a+"), str("1.5"), str("/a/b"), NJSON("-1"), NJSON("99999999999999999999"),
 			NPtr(NStr(true, "a")), NPtr(NPtr(str("a"))), NNilPtr(TStr), NPtr(NNilPtr(TInt)),
@@ -44,6 +50,55 @@ func leaves(thorough bool) []*Node {
 		)
 	}
 	return l
+}
+
+// bigList: n elements, all int 2 except a 1 at position pos (so `1 in a`, any/all fold over many elements)
+func bigList(n, pos int) *Node {
+	var items []*Node
+	for i := 0; i < n; i++ {
+		if i == pos {
+			items = append(items, one)
+		} else {
+			items = append(items, NInt(KInt, false, 2))
+		}
+	}
+	return NSlice(TAny, items...)
+}
+
+func bigMap(n int) *Node {
+	var kv []*Node
+	for i := 0; i < n; i++ {
+		kv = append(kv, str(string(rune('a'+i))), NInt(KInt, false, int64(i)))
+	}
+	return NMap(TStr, TAny, kv...)
+}
+
+// deepDoc: a chain of maps / structs / slices d levels deep ending in leaf (path a.a.0.a.a.0...)
+func deepDoc(d int, leaf *Node) *Node {
+	cur := leaf
+	for i := d; i >= 1; i-- {
+		switch i % 3 {
+		case 0:
+			cur = NSlice(TAny, cur)
+		case 1:
+			cur = NMap(TStr, TAny, str("a"), cur)
+		default:
+			cur = NStruct(F{Name: "A", Tag: `bexpr:"a"`, V: NAny(cur)})
+		}
+	}
+	return cur
+}
+
+func deepPath(d int) []string {
+	var p []string
+	for i := 1; i <= d; i++ {
+		if i%3 == 0 {
+			p = append(p, "0")
+		} else {
+			p = append(p, "a")
+		}
+	}
+	return p
 }
 
 func containers(e, e2 *Node) []*Node {
@@ -126,6 +181,9 @@ func docs(thorough bool) []*Node {
 	for _, t := range jsonTexts {
 		out = append(out, FromJSON(t, false), FromJSON(t, true))
 	}
+	for _, d := range []int{5, 8, 12} {
+		out = append(out, deepDoc(d, one), deepDoc(d, str("a")), deepDoc(d, NMap(TStr, TAny, str("b"), one)))
+	}
 	return out
 }
 
@@ -135,6 +193,8 @@ var lits = []string{"", "a", "b", "1", "0", "-1", "1.5", "true", "T", "0x1", "1_
 
 var selsQuick = [][]string{{"a"}, {"b"}, {"a", "a"}, {"a", "b"}, {"a", "c"}, {"a", "0"}, {"a", "1"}, {"a", "2"}, {"a", "true"}, {"a", "A"}, {"a", "H"}, {"a", "u"},
 	{"a", "a", "a"}, {"a", "0", "a"}, {"a", "a", "0"}, {"a", "0", "0"}, {"a", "a", "c"}, {"a", ""}, {"a", "x"}, {"a", "01"}}
+var selsDeep = [][]string{deepPath(5), deepPath(8), deepPath(12), append(deepPath(8), "c"), append(deepPath(5), "b")}
+
 var selsMore = [][]string{{"0"}, {"a", "B"}, {"a", "j"}, {"a", "J"}, {"a", "K"}, {"a", "-1"}, {"a", "0x0"}, {"a", "a", "b"}, {"a", "b", "a"}, {"a", "1", "a"}, {"a", "a", "1"}, {"a", "c", "a"},
 	{"a", "a", "a", "a"}, {"a", "0", "a", "0"}, {"b", "a"}, {"a", "W"}}
 
@@ -221,6 +281,10 @@ func connectiveExprs() []any {
 func exprs(thorough bool) []any {
 	var out []any
 	out = append(out, matchExprs(selsQuick, lits)...)
+	out = append(out, matchExprs(selsDeep, []string{"1", "a", ""})...)
+	for _, sel := range selsDeep {
+		out = append(out, &Quant{All: false, Sel: sel[:len(sel)-1], Mode: BindBoth, Idx: "i", Val: "x", Body: &Match{Sel: []string{"x"}, Op: OpEq, Lit: "1"}})
+	}
 	if thorough {
 		out = append(out, matchExprs(selsMore, lits)...)
 	}
